@@ -147,6 +147,17 @@ def generate(seed, tier, index):
         ops = [["poison", rf.choice([0, 0xff])], ["setup"], ["drive", plan, cap], ["output"]]
         if rep == nrep - 1 or rf.chance(0.5):
             ops.append(["finalize"])
+            spg = scripts[sidx]["phys"]["spec"]["space"]
+            if rep == nrep - 1 and spg["type"] == "grid" and all(b == "reflecting" for b in spg["bc"]) and \
+                    spg["w"] * spg["h"] * spg["d"] <= 64 and kind != "gillespie" and rf.chance(0.5):
+                # the same script on a coarse-grained copy of the system (identity map, or some cells dropped): the totals
+                # over what the trajectory reports are conserved just the same
+                ncg = spg["w"] * spg["h"] * spg["d"]
+                cg = list(range(ncg))
+                if ncg >= 2 and rf.chance(0.5):
+                    drop = rf.randint(0, ncg - 1)
+                    cg = [(-1 if i == drop else (i if i < drop else i - 1)) for i in range(ncg)]
+                ops.append(["simulate_cg", {"slices": [5, 3], "ms": 1000}, cg])
         eps.append({"obj": 0, "kind": kind, "via": rf.choice(["LibRDEngine", "factory"]), "script": sidx, "ops": ops})
     return {"format": 1, "property": ID, "seed": seed, "tier": tier, "index": index, "build": "plain",
             "scripts": scripts, "lifetimes": [{"pyseed": rf.bits(30), "episodes": eps}],
@@ -199,6 +210,19 @@ def check(case, results):
                 if rx.size and rx.min() < 0:
                     stats["tauleap_negative_entry_seen"] = stats.get("tauleap_negative_entry_seen", 0) + 1
         for ev in res.events:
+            if ev["e"] == ei and ev["op"] == "simulate_cg" and "exc" not in ev and not ev.get("skipped"):
+                ncs = ev["nsamples"]
+                dcg = np.frombuffer(ev["data"], dtype=np.float64)
+                if ncs >= 2 and dcg.size == ncs * m.ns * m.nc and np.all(np.isfinite(dcg)):
+                    totc = dcg.reshape(ncs, m.ns, m.nc).sum(axis=2)
+                    for cvec in m.conservation_vectors():
+                        ser = totc @ np.array(cvec, dtype=float)
+                        scl = float((np.abs(dcg.reshape(ncs, m.ns, m.nc)).sum(axis=2) @ np.abs(np.array(cvec, dtype=float))).max())
+                        stats["conservation_series_coarse_grained"] = stats.get("conservation_series_coarse_grained", 0) + 1
+                        if float(np.abs(ser - ser[0]).max()) > 1e-9 * scl + 1e-300:
+                            v.append({"oracle": "C02.conserved", "detail": "coarse-grained run (map %s): combination %s drifts by %r "
+                                      "(scale %r) over %d samples" % (ep["ops"][ev["i"]][2], cvec, float(np.abs(ser - ser[0]).max()), scl, ncs)})
+                            break
             if ev["e"] == ei and ev["op"] == "drive" and "exc" not in ev:
                 stats["engine_steps"] = stats.get("engine_steps", 0) + ev["nloop"]
         for x in v:
